@@ -200,6 +200,25 @@ c_mix = contract(M + "e_eq_mixed_mk", prop=P, params=dict(T="real"), elementwise
 c_mix.domain = {"T": (-50.0, 400.0)}
 
 
+def _T_sampler(rng):
+    """temperatures of the property's range 100..400 K (below, float64 underflows to 0 although the formulas are positive),
+    the two branch temperatures of the mixed-phase formula and their neighbours one ulp away, non-positive ones (rejected);
+    scalars and arrays"""
+    import numpy as _np
+    Tt = constants.triple_point_water
+    special = [100.0, 400.0, Tt, Tt - 23.0, _np.nextafter(Tt, 0), _np.nextafter(Tt, 1e3), _np.nextafter(Tt - 23.0, 0), _np.nextafter(Tt - 23.0, 1e3)]
+    one = lambda: float(rng.choice(special)) if rng.random() < 0.4 else rng.uniform(100.0, 400.0)
+    r = rng.random()
+    if r < 0.1:
+        return dict(T=rng.choice([0.0, -1.0, rng.uniform(-50.0, 0.0)]))
+    if r < 0.6:
+        return dict(T=one())
+    return dict(T=_np.array([one() for _ in range(rng.randint(1, 5))]))
+
+
+c_ice.sampler = c_liq.sampler = c_mix.sampler = _T_sampler
+
+
 @theorem(P, "mixed-phase")
 def thm_mixed(T: "real"):
     reveal(A.e_eq_mixed_mk)
@@ -214,6 +233,9 @@ def thm_mixed(T: "real"):
     ensures(implies(T == Tt, m == liq), id="continuous at Tt (blend factor 1)")
     ensures(implies(Tt - 23 <= T and T <= Tt, min(ice, liq) <= m and m <= max(ice, liq)), id="between ice and liquid")
     ensures(m > 0, id="positive")
+
+
+thm_mixed.domain = {"T": (100.0, 400.0)}          # (concrete replays: the property's temperature range)
 
 
 @theorem(P, "nonpositive-T-rejected")
